@@ -201,7 +201,7 @@ func (e *vDns) match(c *vDCfg, tcp bool, in []byte, cls string, nt bool) vRes {
 	r := vEval(c.m, tcp, in)
 	e.nMatch++
 	key := fmt.Sprintf("%s|%v|%x", c.name, tcp, in)
-	mod := uint64(6 + len(in)/10)
+	mod := uint64(14 + len(in)/4)
 	if vThorough() {
 		mod = uint64(1 + len(in)/400)
 	}
@@ -552,7 +552,7 @@ func TestVerifMdns(t *testing.T) {
 			}
 			for _, d := range sz {
 				for _, tcp := range []bool{true, false} {
-					e.force = ci == 0 && len(d.wire) >= 500 && len(d.wire) <= 1300
+					e.force = ci == 0 && (len(d.wire) == 512 || len(d.wire) == 513 || len(d.wire) == 1232)
 					r := e.match(c, tcp, frame(tcp, d.wire), "c14-sizes", true)
 					e.force = false
 					want := vFilterRef(c.m, d.qs)
@@ -645,5 +645,85 @@ func TestVerifMdns(t *testing.T) {
 			}
 		}
 	}
+	// ---- the dns matcher behind a matcher that evaluates a nested matcher set (what `not` does), datagram transport, a
+	// client that keeps sending: the read-until-error loop of the UDP branch must still see only the prefetched bytes
+	if e.want("C04") || e.want("C06") {
+		for _, d := range []int{0, 5, 40} {
+			if d >= len(msgs) {
+				continue
+			}
+			conn := &vFlood{left: 8192}
+			in := msgs[d].wire
+			cx := layer4.WrapConnection(conn, append(make([]byte, 0, len(in)+8), in...), zap.NewNop())
+			var ms0, ms1 runtime.MemStats
+			code, pmsg := -1, ""
+			func() {
+				defer func() {
+					if r := recover(); r != nil {
+						code, pmsg = vPanic, fmt.Sprint(r)
+					}
+				}()
+				runtime.ReadMemStats(&ms0)
+				ok, err := layer4.MatcherSet{vNested{}, cfgs[0].m}.Match(cx)
+				runtime.ReadMemStats(&ms1)
+				switch {
+				case err == nil && ok:
+					code = vYes
+				case err == nil:
+					code = vNo
+				case errors.Is(err, layer4.ErrConsumedAllPrefetchedBytes):
+					code = vMore
+				default:
+					code = vFail
+				}
+			}()
+			inp := map[string]any{"scenario": "MatcherSet{nested-set matcher, dns} on a datagram connection whose peer keeps sending", "input": hex.EncodeToString(in),
+				"socket_reads": conn.reads, "verdict": code}
+			if code == vPanic {
+				e.out.Fail("C04:dns:panic", "Match panicked: "+pmsg, inp)
+			}
+			if conn.reads != 0 {
+				e.out.Fail("C06:dns:network-read", fmt.Sprintf("the dns matcher read from the socket %d time(s) while matching (after a matcher with a nested set)", conn.reads), inp)
+			}
+			if alloc := ms1.TotalAlloc - ms0.TotalAlloc; alloc > 16*layer4.MaxMatchingBytes+4*uint64(len(in)) {
+				e.out.Fail("C04:dns:alloc", fmt.Sprintf("Match allocated %d bytes on a %d-byte datagram (after a matcher with a nested set; the peer kept sending)", alloc, len(in)), inp)
+			}
+			want := vYes
+			if !msgs[d].valid {
+				want = vNo
+			}
+			if code != want && code != vPanic && e.want("C06") {
+				e.out.Fail("C06:dns:verdict-depends-on-set-position", fmt.Sprintf("verdict %d behind a nested-set matcher, %d when evaluated alone", code, want), inp)
+			}
+		}
+	}
 	out.Stat("match_evaluations", e.nMatch)
+}
+
+// a datagram peer that keeps sending: 512 bytes per Read, for a bounded number of reads
+type vFlood struct {
+	vConn
+	left int
+}
+
+func (c *vFlood) Read(p []byte) (int, error) {
+	c.reads++
+	if c.left <= 0 {
+		return 0, io.EOF
+	}
+	c.left--
+	for i := range p {
+		p[i] = 0xab
+	}
+	return len(p), nil
+}
+
+// a matcher that, like `not`, evaluates a nested matcher set and matches
+type vNested struct{}
+type vAlways struct{}
+
+func (vAlways) Match(*layer4.Connection) (bool, error) { return true, nil }
+func (vNested) Match(cx *layer4.Connection) (bool, error) {
+	_, err := layer4.MatcherSet{vAlways{}}.Match(cx)
+	return true, err
 }
